@@ -400,6 +400,37 @@ func init() {
 				fail(*f)
 			}
 		}
+		// long flat chains (boundary sizes of recursion / depth guards): every term must come back, none may be lost,
+		// and a chain of valid terms is a valid expression
+		for _, n := range []int{255, 256, 257, 1000, 4096, 10000, 10001, 12001} {
+			if n > 4096 && !thorough() && n != 10001 {
+				continue
+			}
+			pool := distinctTerms(7)
+			for _, op := range []string{" OR ", " AND "} {
+				parts := make([]string, n)
+				wantSet := map[string]bool{}
+				for i := range parts {
+					t := pool[i%len(pool)]
+					parts[i] = t.text
+					if x := implExt(t.text); x.err == nil && x.panicv == nil && len(x.list) == 1 {
+						wantSet[x.list[0]] = true
+					}
+				}
+				text := strings.Join(parts, op)
+				res.Evaluations++
+				count("long_chains")
+				x := implExt(text)
+				k := &kase{Extra: map[string]string{"generated": fmt.Sprintf("%d terms joined by %q, cycling through %s", n, op, joinShow(texts(pool)))}}
+				var want []string
+				for w := range wantSet {
+					want = append(want, w)
+				}
+				if x.panicv != nil || x.err != nil || hxl(uniqSorted(x.list)) != hxl(uniqSorted(want)) {
+					fail(failure{Stream: "oracle", What: fmt.Sprintf("ExtractLicenses on a flat chain of %d valid terms does not return exactly their distinct canonical texts", n), Case: k, Impl: x.setString(), Expected: "ok " + hxl(uniqSorted(want))})
+				}
+			}
+		}
 	}
 	replays["C06"] = func(k *kase) *failure { return c06Check(k, false) }
 }
